@@ -515,7 +515,10 @@ func EVAL(ctx context.Context, ast MalType, env EnvType) (res MalType, e error) 
 				return do(ctx, tryDo, 0, 0, env)
 			}()
 
-			defer func() { _, _ = do(ctx, finallyDo, 0, 0, env) }()
+			// finally runs in the scope of the try form itself: env is re-assigned below (catch scope) and by
+			// later iterations of the loop, so it must not be captured by reference
+			tryEnv := env
+			defer func() { _, _ = do(ctx, finallyDo, 0, 0, tryEnv) }()
 
 			if e == nil {
 				return exp, nil
